@@ -62,6 +62,12 @@ def run(ctx):
                     ctx.violation("h_gadget edges (%d,%d) %s died rc=%s %s" % (l, bg, kind, rc, err[-200:]), key="h_gadget edges crash (%d,%d) %s" % (l, bg, kind))
                     continue
                 out.write(open(part).read())
+            part = f + ".part"
+            rc, err = table.run_harness(ctx, exe, ["seq", "--ls", ",".join(str(l) for l, _ in LAYOUTS), "--bgs", ",".join(str(b) for _, b in LAYOUTS), "--seed", ctx.seed + 3, "--rand", 48], part)
+            if rc != 0:
+                ctx.violation("h_gadget seq %s died rc=%s %s" % (kind, rc, err[-200:]), key="h_gadget seq crash %s" % kind)
+            else:
+                out.write(open(part).read())
         bad = table.validate_rows(ctx, "Table_C12", f, what="C12 edges %s" % kind, timeout=3000)
         if bad:
             ctx.violation("decomposition violates balance/recomposition/input-restoration at full width (%s build): row %s" % (kind, bad["row"]), detail=bad, files=[f])
